@@ -21,61 +21,8 @@ MIN_NONVACUOUS = {'quick': {'portfolio.mapping_rows_point_to_own_variables': 750
                                'asset.unmapped_inert': 200}}
 
 
-def rename_hostile(rng, spec):
-    """injective renaming of assets and nodes with the hostile name pool."""
-    import copy
-    spec = copy.deepcopy(spec)
-    names = []
-    def coll(a):
-        names.append(a['name'])
-        if 'base' in a: coll(a['base'])
-        for x in a.get('assets', []): coll(x)
-    for a in spec['assets']: coll(a)
-    nodes = sorted({n for a in spec['assets'] for n in _nodes(a)})
-    # assets and nodes are separate name spaces: each renaming is injective on its own, an asset may carry the name of a node, and concatenations of
-    # asset and node names may coincide ('1'+'11' = '11'+'1')
-    pool_a = gen.hostile_names(rng, len(names)); pool_n = gen.hostile_names(rng, len(nodes))
-    if len(pool_a) < len(names) or len(pool_n) < len(nodes):
-        return spec, {}
-    amap = dict(zip(names, pool_a))
-    nmap = dict(zip(nodes, pool_n))
-    tops = [a for a in spec['assets'] if a.get('nodes') and a['type'] not in ('StructuredAsset', 'LinkedAsset', 'ScaledAsset')]
-    if len(nodes) >= 2 and len(tops) >= 2 and rng.random() < 0.25:
-        # two (asset, node) pairs whose concatenated names coincide: asset p in node pq and asset pq in node p
-        for _ in range(10):
-            a1, a2 = [tops[int(i)] for i in rng.permutation(len(tops))[:2]]
-            n1, n2 = a1['nodes'][0], a2['nodes'][0]
-            if n1 != n2:
-                pa, pb = gen.pick(rng, [('1', '11'), ('a', 'ab'), ('0', '00'), ('x', 'x (y)')])
-                def put(mp, key, val):
-                    for k_, v_ in list(mp.items()):
-                        if v_ == val and k_ != key:
-                            mp[k_] = mp[key]          # swap: stays injective
-                    mp[key] = val
-                put(amap, a1['name'], pa); put(amap, a2['name'], pb); put(nmap, n1, pb); put(nmap, n2, pa)
-                break
-    def ren(a):
-        a['name'] = amap[a['name']]
-        if 'nodes' in a and a['nodes'] is not None:
-            a['nodes'] = [nmap[n] for n in a['nodes']]
-        for key in ('asset1_variable', 'asset2_variable'):     # a LinkedAsset refers to wrapped assets / nodes by name
-            if key in a:
-                v = list(a[key])
-                v[0] = amap.get(v[0], v[0])
-                if v[2] is not None:
-                    v[2] = nmap.get(v[2], v[2])
-                a[key] = v
-        if 'base' in a: ren(a['base'])
-        for x in a.get('assets', []): ren(x)
-    for a in spec['assets']: ren(a)
-    return spec, {'assets': amap, 'nodes': nmap}
-
-
-def _nodes(a):
-    out = list(a.get('nodes') or [])
-    if 'base' in a: out += _nodes(a['base'])
-    for x in a.get('assets', []): out += _nodes(x)
-    return out
+rename_hostile = gen.rename_hostile
+_nodes = gen.spec_nodes
 
 
 def run_case(rng, tier, case):
